@@ -423,11 +423,18 @@ static void json_escape(char* out, size_t n, const char* in) {
 extern void fiber_manager_all_stats(void* out) __attribute__((weak));
 static int finishing;
 static int dump_always, compact_ok;
+static void ghost_live_summary(char* out, size_t n);
 void finish(int code, const char* verdict, const char* oracle, const char* detail) {
   if (__atomic_exchange_n(&finishing, 1, __ATOMIC_SEQ_CST)) {
     for (;;) syscall(SYS_exit_group, code);
   }
   sim_active = 0;
+  static char stuck_detail[1100];
+  if (oracle && !strncmp(oracle, "STUCK-", 6) && fiber_mode) { /* name the fibers that have not finished */
+    size_t k = snprintf(stuck_detail, sizeof stuck_detail, "%s; unfinished fibers: ", detail ? detail : "");
+    ghost_live_summary(stuck_detail + k, sizeof stuck_detail - k);
+    detail = stuck_detail;
+  }
   if (fiber_mode && fiber_manager_all_stats) {
     uint64_t st[11];
     fiber_manager_all_stats(st);
@@ -538,7 +545,11 @@ static void fwake(_Atomic int* a) {
   syscall(SYS_futex, a, FUTEX_WAKE_PRIVATE, 1, 0, 0, 0);
 }
 static int others_all_blocked(int self);
+/* a held thread is not given the baton for a while (as if the OS had preempted it): set when one of its
+ * fibers was made runnable before its context switch completed, so that the race can actually play out */
+static uint64_t hold_until[MAXT];
 static int runnable(int i) {
+  if (hold_until[i] > g_steps && T[i].st == ST_RUN) return 0;
   switch (T[i].st) {
     case ST_RUN:
       return 1;
@@ -659,6 +670,13 @@ void block_me(void) {
         break;
       }
     if (!any) {
+      int released = 0;
+      for (int i = 0; i < nthr; i++)
+        if (hold_until[i] > g_steps) {
+          hold_until[i] = 0;
+          released = 1;
+        }
+      if (released) continue;
       uint64_t t = UINT64_MAX;
       for (int i = 0; i < nthr; i++) {
         uint64_t w = wake_time(i);
@@ -1169,6 +1187,17 @@ void ghost_switch(void) {
   if (m && !was && ghost_all_maint()) idle_since_ns = now_ns;
   th(0xF1BE0000ull + io * 257 + in);
 }
+static void ghost_live_summary(char* out, size_t n) {
+  static const char* const ls[] = {"?", "RUNNING", "READY", "WAITING", "DONE", "SAVING"};
+  static const char* const gs[] = {"fresh", "running", "saved", "dead"};
+  size_t k = 0;
+  out[0] = 0;
+  for (int i = 0; i < ng && k + 48 < n; i++) {
+    if (G[i].g == G_DEAD || G[i].maint) continue;
+    int st = glue_fiber_state(G[i].f);
+    k += snprintf(out + k, n - k, "#%d(%s,%s on t%d%s) ", i, st >= 0 && st <= 5 ? ls[st] : "?", gs[G[i].g], G[i].on, G[i].pend ? ",queued" : "");
+  }
+}
 void ghost_on_free(void* p, size_t size) {
   (void)size;
   if (!fiber_mode) return;
@@ -1200,6 +1229,13 @@ void __wrap_fiber_scheduler_schedule(void* s, void* f) {
   if (sim_active && me >= 0 && fiber_mode) {
     int i = gidx(f);
     if (G[i].pend) sim_violation("C02-scheduled-twice", "fiber #%d made runnable while an earlier wake-up is still queued", i);
+    if (G[i].g == G_RUNNING && G[i].on != me && G[i].on >= 0 && glue_fiber_state(f) != 5 /* SAVING_STATE_TO_WAIT */) {
+      /* made runnable (and visible to every scheduler) while it still executes and is not marked as saving:
+       * not a verdict, but worth pursuing - keep its kernel thread off the baton for a while */
+      hold_until[G[i].on] = g_steps + 1500;
+      sim_probe("woken_while_still_running", 1);
+      TR("[%lu] t%d schedules #%d which still runs on t%d (not saving): holding t%d\n", g_steps, me, i, G[i].on, G[i].on);
+    }
     if (G[i].g == G_DEAD) sim_violation("C02-schedule-dead", "fiber #%d scheduled after being freed", i);
     G[i].pend = 1;
     if (G[i].schedules++ > 0 && !glue_is_yield_requeue(f)) G[i].wakeups++;
